@@ -1076,6 +1076,21 @@ func runCompress(c *mon.Case) {
 	if source != nil {
 		srcLen = source.Length()
 	}
+	if al.Length() > 0 && r.Chance(0.15) {
+		// a sequence of another length was refused just before: the alignment that is compressed is the one the
+		// refusal left (the property speaks of its sites and their multiplicities)
+		L := al.Length()
+		wrong := r.Str(L+r.PickInt([]int{-1, 1, 3, -L + 1}), "ACGT")
+		if len(wrong) == 0 || len(wrong) == L {
+			wrong = r.Str(L+1, "ACGT")
+		}
+		if err := al.AddSequence("refused-before-compress", wrong, ""); err == nil {
+			c.Failf("harness:refused-add-accepted", "a row of %d residues was accepted by an alignment of length %d", len(wrong), L)
+			return
+		}
+		tag += "[after a refused AddSequence]"
+		c.Count("compress:after-refused-add")
+	}
 	after, w, ok := checkCompress(c, al, tag)
 	if !ok {
 		return
